@@ -1035,7 +1035,7 @@ fn adversarial(pattern: u64, n: usize, rng: &mut SplitMix64) -> String {
                 s.p_insert(1, 0, it as i64);
                 s.p_merge(0, 1);
             }
-            _ => {
+            7 => {
                 // ordinary appends with a scratch treap created in between: split, merge through
                 // the empty scratch treap, merge back
                 s.p_insert(0, len, it as i64);
@@ -1045,13 +1045,37 @@ fn adversarial(pattern: u64, n: usize, rng: &mut SplitMix64) -> String {
                 s.p_merge(0, 2);
                 s.p_merge(0, 1);
             }
+            8 => {
+                // several live treaps filled round-robin: the nodes of each are every k-th creation of the thread
+                let k = [2usize, 3, 5, 8, 13, 21][(n % 6) as usize];
+                while s.seqs.len() < k {
+                    s.p_new();
+                }
+                let j = it % k;
+                let l = s.seqs[j].len();
+                s.p_insert(j, l, it as i64);
+            }
+            _ => {
+                // appends with scratch one-element treaps created (and dropped) in between: the treap's nodes are a
+                // thinned subsequence of the thread's creations
+                s.p_insert(0, len, it as i64);
+                let scratch = 1 + (it % 3);
+                for _ in 0..scratch {
+                    s.p_item(-1);
+                    s.p_drop(1);
+                }
+            }
         }
     }
     s.line("C16", Some(4))
 }
 
 pub fn gen(args: &Args, emit: &mut dyn FnMut(String), st: &mut Stats) {
-    let thorough = args.tier == "thorough";
+    // `--profile debug`: the same generators in smaller numbers, run against the debug build of rlib
+    // (cfg(debug_assertions), debug_assert!); debug + thorough = the release quick sizes
+    let debug = args.extra.get("profile").map_or(false, |s| s == "debug");
+    let thorough = args.tier == "thorough" && !debug;
+    let small = debug && args.tier != "thorough";
     let focus = args.extra.get("focus").cloned().unwrap_or_else(|| "C03".to_string());
     let mut rng = SplitMix64::new(args.seed ^ if focus == "C16" { 0xC16 } else { 0xC03 });
     if focus == "C03" {
@@ -1061,6 +1085,12 @@ pub fn gen(args: &Args, emit: &mut dyn FnMut(String), st: &mut Stats) {
             random_batch("C03", false, 90_000, 12_000, 3_000, &mut rng, emit, st);
             random_batch("C03", true, 22_000, 4_000, 1_000, &mut rng, emit, st);
             key_batch("C03", 8_000, 2_000, &mut rng, emit, st);
+        } else if small {
+            exhaustive("C03", 3, 4, emit, st, &mut rng);
+            exhaustive_extreme("C03", 2, emit, st, &mut rng);
+            random_batch("C03", false, 400, 60, 20, &mut rng, emit, st);
+            random_batch("C03", true, 100, 16, 4, &mut rng, emit, st);
+            key_batch("C03", 60, 20, &mut rng, emit, st);
         } else {
             exhaustive("C03", 4, 5, emit, st, &mut rng);
             exhaustive_extreme("C03", 3, emit, st, &mut rng);
@@ -1076,6 +1106,12 @@ pub fn gen(args: &Args, emit: &mut dyn FnMut(String), st: &mut Stats) {
             random_batch("C16", false, 20_000, 3_000, 1_000, &mut rng, emit, st);
             random_batch("C16", true, 2_500, 400, 100, &mut rng, emit, st);
             key_batch("C16", 2_000, 500, &mut rng, emit, st);
+        } else if small {
+            exhaustive("C16", 2, 3, emit, st, &mut rng);
+            exhaustive_extreme("C16", 2, emit, st, &mut rng);
+            random_batch("C16", false, 120, 30, 10, &mut rng, emit, st);
+            random_batch("C16", true, 30, 6, 2, &mut rng, emit, st);
+            key_batch("C16", 20, 6, &mut rng, emit, st);
         } else {
             exhaustive("C16", 3, 4, emit, st, &mut rng);
             exhaustive_extreme("C16", 3, emit, st, &mut rng);
@@ -1084,8 +1120,8 @@ pub fn gen(args: &Args, emit: &mut dyn FnMut(String), st: &mut Stats) {
             key_batch("C16", 100, 30, &mut rng, emit, st);
         }
         // rlib's own priorities, explicit operations
-        let (reps, size) = if thorough { (6, 1500) } else { (1, 300) };
-        for pattern in 0..8u64 {
+        let (reps, size) = if thorough { (6, 1500) } else if small { (1, 120) } else { (1, 300) };
+        for pattern in 0..10u64 {
             for r in 0..reps {
                 emit(adversarial(pattern, size / (1 + r % 3), &mut rng));
                 st.bump(&format!("adversarial_explicit_pattern_{}", pattern));
@@ -1093,7 +1129,7 @@ pub fn gen(args: &Args, emit: &mut dyn FnMut(String), st: &mut Stats) {
         }
         // measured: adversarial histories with rlib's priorities up to 10^6 elements; every case is
         // self-contained (fresh thread = start of the priority stream, `burn` moves it forward)
-        let sizes: Vec<usize> = if thorough { vec![1_000, 31_623, 1_000_000] } else { vec![1_000, 100_000] };
+        let sizes: Vec<usize> = if thorough { vec![1_000, 31_623, 1_000_000] } else if small { vec![1_000] } else { vec![1_000, 100_000] };
         for &n in &sizes {
             let sd = rng.below(1 << 30);
             let burn = if thorough { rng.below(5_000_000) } else { 0 };
@@ -1117,10 +1153,44 @@ pub fn gen(args: &Args, emit: &mut dyn FnMut(String), st: &mut Stats) {
                 st.bump(&format!("big_n{}", n));
             }
         }
-        if !thorough {
+        if !thorough && !small {
             // one longer sorted append so that a short-period generator shows up in the quick tier too
             emit("C16 sum big ; append 300000".to_string());
             st.bump("big_n300000");
+        }
+        // the nodes of one treap are a SUBSEQUENCE of the thread's creations (seeded C16_m10: a priority source that is
+        // fine for consecutive creations and degenerate along arithmetic progressions of the creation index).
+        // (a) every stride up to S on the same nodes (two windows each);
+        let (smax, len) = if thorough { (16_384, 256) } else if small { (512, 128) } else { (4_096, 256) };
+        emit(format!("C16 sum big ; strides {} {}", smax, len));
+        emit(format!("C16 sum big ; burn {} ; strides {} {}", 1 + rng.below(1_000_000), smax / 4, len * 2));
+        st.add("big_strides_all_strides_up_to", smax as u64);
+        // (b) the user-level scenarios: k treaps filled round-robin, appends thinned by scratch creations, a long append
+        // run thinned to every s-th element afterwards — k/s over powers of two, Fibonacci numbers and small multiples,
+        // primes, round decimal counts, random counts
+        let mut counts: Vec<usize> = vec![2, 3, 7, 16, 55, 64, 89, 100, 144, 233, 256, 377, 500, 610, 987, 1000, 1024, 1597, 1974, 2048, 2584, 4096, 4181];
+        for _ in 0..(if thorough { 40 } else { 6 }) {
+            counts.push(2 + rng.below(5000) as usize);
+        }
+        if small {
+            counts = vec![3, 64, 89, 610, 987, 1024];
+        }
+        if thorough {
+            counts.extend([6765, 8192, 10_946, 16_384, 28_657, 32_768, 65_536]);
+        }
+        for &k in &counts {
+            let rounds = if thorough { (200_000 / k).clamp(64, 512) } else if small { 64 } else { (150_000 / k).clamp(64, 256) };
+            emit(format!("C16 sum big ; rr {} {}", k, rounds));
+            emit(format!("C16 sum big ; burn {} ; thin {} {}", rng.below(10_000), k, if thorough { 1024 } else if small { 64 } else { 256 }));
+            st.add("big_round_robin_treaps", k as u64);
+            st.bump("big_rr");
+            st.bump("big_thin");
+        }
+        for &s in &[64usize, 377, 512, 610, 987, 1000] {
+            let keep = if thorough { 1024 } else if small { 64 } else { 256 };
+            emit(format!("C16 sum big ; append {} ; keep {}", s * keep, s));
+            emit(format!("C16 sum big ; front {} ; keep {}", s * keep / 2, s / 2 + 1));
+            st.add("big_keep", 2);
         }
     }
 }
